@@ -127,6 +127,16 @@ class Lib:
                 vals = [E.eval(x, st) for x in idx]
                 if all(is_scalar(v) for v in vals) and len(vals) == d.ndim:
                     return d.sel(*[to_int(v) for v in vals])
+            if d.ndim == 2 and len(idx) == 2 and idx[0] is not None and idx[1] is not None:
+                v0, v1 = E.eval(idx[0], st), E.eval(idx[1], st)
+                m0 = as_array(v0, st) if isinstance(v0, Ref) else None
+                if m0 is not None and m0.kind == "b" and m0.ndim == 1 and is_scalar(v1):
+                    # a[mask, j]: the entries of column j at the True positions of mask (order preserving)
+                    j1 = to_int(v1)
+                    col = ArrData((d.shape[0],), lambda i, j1=j1: d.sel(i, j1), d.kind)
+                    r = self.filter(E, col, m0, st)
+                    st.get(r).column = j1
+                    return r
             if d.ndim == 2 and len(idx) == 2:
                 if idx[0] is None and idx[1] is not None:
                     j = E.eval(idx[1], st)
@@ -290,7 +300,7 @@ class Lib:
         if isinstance(recv, Opaque):
             if name in ("get_state",):
                 return Opaque("state")
-            return E.unknown_call(f"{recv.tag}.{name}", args, kwargs, st, node)
+            return E.unknown_call(f"{recv.tag}.{name}", [recv] + list(args), kwargs, st, node)
         if isinstance(recv, str):
             if name == "format":
                 return "<str>"
@@ -496,6 +506,9 @@ def _join_kind(kind, v):
 
 
 def _ite_val(c, a, b):
+    if isinstance(a, Opaque) and isinstance(b, Opaque):
+        cc = z3.BoolVal(c) if isinstance(c, bool) else c
+        return Opaque("ite", z3.If(cc, a.sym, b.sym))
     if isinstance(a, Opaque) or isinstance(b, Opaque):
         return Opaque("ite")
     return ite(z3.simplify(c) if is_z3(c) else c, a, b)
@@ -708,6 +721,18 @@ def register_builtins(L):
             return v
         return Opaque("copy")
 
+    @fn("dict")
+    def _dict(E, st, args, kw, node):
+        if not args:
+            return st.alloc(DictData(dict(kw)))
+        v = args[0]
+        if isinstance(v, Ref) and isinstance(st.get(v), DictData):
+            d = st.get(v)
+            items = dict(d.items)
+            items.update(kw)
+            return st.alloc(DictData(items, d.open))
+        return Opaque("dict")
+
     @fn("warnings.warn", "warn")
     def _warn(E, st, args, kw, node):
         E.dropped.add("warnings.warn")
@@ -794,7 +819,7 @@ def register_builtins(L):
         if is_scalar(v):
             return st.alloc(ArrData((), lambda v=v: v, kind_of(v)))
         if isinstance(v, Opaque):
-            return Opaque("array")
+            return v          # equal contents: the opaque value itself (provenance is kept)
         raise Unsupported("np.array of " + repr(v))
 
     @fn("check_array", "column_or_1d", "check_X_y")
@@ -1017,6 +1042,26 @@ def register_builtins(L):
             return st.alloc(ArrData((a.shape[0],), lambda r: f(r), "i"))
         return Opaque(name)
 
+    @fn("np.column_stack")
+    def _np_column_stack(E, st, args, kw, node):
+        parts = args[0]
+        if isinstance(parts, tuple) and len(parts) == 2:
+            a, b = (as_array(p, st) if isinstance(p, Ref) else None for p in parts)
+            if a is not None and b is not None and a.ndim == 1 and b.ndim == 2:
+                kind = a.kind if a.kind == b.kind else "o"
+                return st.alloc(ArrData((a.shape[0], z3.simplify(to_int(b.shape[1]) + 1)),
+                                        lambda i, j, a=a, b=b: _ite_val(j == 0, a.sel(i), b.sel(i, j - 1)), kind))
+        return Opaque("column_stack")
+
+    @fn("np.logical_or", "np.logical_and")
+    def _np_logical(E, st, args, kw, node):
+        a, b = (as_array(p, st) if isinstance(p, Ref) else None for p in args[:2])
+        if a is None or b is None or a.kind != "b" or b.kind != "b":
+            return Opaque("logical")
+        shape, fa, fb = _broadcast(a, b)
+        f = z3.Or if unparse(node.func).endswith("or") else z3.And
+        return st.alloc(ArrData(shape, lambda *i: f(z3bool(fa(*i)), z3bool(fb(*i))), "b"))
+
     @fn("np.repeat")
     def _np_repeat(E, st, args, kw, node):
         # np.repeat([u], k, axis=0): k copies of the row u
@@ -1086,7 +1131,7 @@ def count_true(E, a, st):
         return c
     if getattr(a, "zero_one", False) or sc is not None:
         return z3.ToReal(c)
-    raise Unsupported("np.sum over a general numeric array")
+    return fresh("sum", R)      # sum of a general numeric array: no contract (unconstrained value)
 
 
 def _is_one_val(v):
